@@ -21,11 +21,12 @@ MODEL_SRC = ["model/vmodel.c", "model/refexec.c", "model/coreenv.c"]
 REF_RENAMES = ["random_lib_lp_init", "RandomU64", "Random", "Poisson", "Normal", "Gamma", "Zipf", "RandomRange", "current_lp", "global_config"]
 
 
-def build(d, san=False, harness="harness/h_run.c", name=None, ranks=1):
+def build(d, san=False, harness="harness/h_run.c", name=None, ranks=1, race=False):
     """Whole runtime in `ranks` symbol-renamed copies (prefix r<k>_) linked into one binary with the harness."""
     name = name or f"h_run{ranks}"
     srcs = [s for s in vc.core_sources() if s != "arch/thread.c"]
-    core = vc.build_core(d, files=srcs, san=san, hook=True, extra=["-w"])
+    # race builds: -fsanitize=thread for its access call-backs only; engine/tsanpts.c defines the run time entry points
+    core = vc.build_core(d, files=srcs, san=san, hook=True, extra=["-w"] + (["-fsanitize=thread"] if race else []))
     for src, obj in zip(srcs, core):
         syms = WRAPS.get(src)
         if not syms:
@@ -57,8 +58,8 @@ def build(d, san=False, harness="harness/h_run.c", name=None, ranks=1):
             raise vc.EngineError("objcopy rank copy failed: " + p.stderr[-1500:])
         rank_objs.append(ro)
     common = ["-w", "-I" + os.path.join(vc.VERIF, "harness"), f"-DNRANKS={ranks}"]
-    objs = vc.build_objs(d, [harness, "engine/rsched.c", "engine/plat.c", "engine/fakempi/fakempi.c", "model/vmodel.c", "model/coreenv.c"],
-                         san=san, extra=common)
+    objs = vc.build_objs(d, [harness, "engine/rsched.c", "engine/plat.c", "engine/fakempi/fakempi.c", "model/vmodel.c", "model/coreenv.c"]
+                         + (["engine/tsanpts.c"] if race else []), san=san, extra=common)
     objs += vc.build_objs(d, ["model/refexec.c"], san=san, extra=common + [f"-D{s}=r0_{s}" for s in REF_RENAMES])
     return vc.link(os.path.join(d, name), objs + rank_objs, san=san)
 
@@ -267,3 +268,23 @@ LIBSTATE_RULE = ("s_libstate: 15 library calls (RandomU64, Random, Poisson, Norm
                  "neither stack, LP context nor argument and that it ever writes (call-backs obtained by compiling the library with "
                  "-fsanitize=thread and defining the __tsan_* entry points in the harness: one preemption inside the call, exhaustively); "
                  "LP 0's results and generator state must be those of its stand-alone stream, LP 1's result that of its own")
+
+
+RACE_RULE = ("race_* scenarios: the same harness on a build of the core compiled with -fsanitize=thread for its access call-backs only (run "
+             "time not linked, engine/tsanpts.c): every plain load/store of static storage that some thread has stored to since the workers "
+             "started is a scheduling point too, so the explorer also interleaves the threads inside calls at shared file-scope / "
+             "function-level static state")
+
+
+def race_part(pid, d, tier, models_cfg):
+    """models_cfg: [(name, model, T, ck)] run at p=1 (thorough: the first also at p=2) on the race build; returns (reps, merged, viol)."""
+    b = build(os.path.join(d, "race"), race=True, name="h_run_race")
+    sc = [scen("race_" + n, m, T=t, ck=ck, p=1, j=4, deadline=600) for (n, m, t, ck) in models_cfg]
+    if tier != "quick":
+        n, m, t, ck = models_cfg[0]
+        sc.append(scen("race_" + n + "_p2", m, T=t, ck=ck, p=2, j=16, deadline=1500))
+    return vc.rsched_scenarios(pid, "h_run(race build)", b, sc, d, workers=3)
+
+
+def is_race_replay(path):
+    return os.path.basename(path).startswith("race_")
